@@ -10,7 +10,7 @@ mid = sys.argv[5] if len(sys.argv) > 5 else f"{prop}-{which}"
 patch = os.path.join(deliver, f"mut{which}.diff"); demo = os.path.join(deliver, f"demo{which}.py")
 d = f"/tmp/vmut/intake-{mid}"
 shutil.rmtree(d, ignore_errors=True); os.makedirs(d)
-subprocess.run(["rsync", "-a", "--exclude", ".git", "--exclude", "docs", "--exclude", "benchmark", "--exclude", "paper", "--exclude", "__pycache__", "/repo/", d + "/"], check=True)
+subprocess.run(["rsync", "-a", "--exclude", ".git", "--exclude", "benchmark", "--exclude", "paper", "--exclude", "__pycache__", "/repo/", d + "/"], check=True)
 def demo_on(tree):
     p = subprocess.run([PY, demo], cwd=tree, env=dict(os.environ, PYTHONPATH=tree, PYTHONDONTWRITEBYTECODE="1"), capture_output=True, text=True, timeout=1800)
     return p.returncode, (p.stdout + p.stderr)[-400:]
